@@ -384,6 +384,62 @@ def check_c10(idx: Index, tier: str, res: Result) -> None:
     res.extra.update(stats)
     res.floor("index-axis agreement sites (loop variable over dims[k] used at position k)", _axis_agreement(idx, res), 4)
 
+    # ---- element-wise operators: two arrays are accepted only when their shapes are equal (siblings + - * /) ----------------------------
+    both = dict(S1=False, S2=False, V1=False, V2=False)
+    nel = 0
+    for cname in ("AdditionOperator", "SubtractionOperator", "MultiplicationOperator", "DivisionOperator"):
+        rdf = idx.try_func(OPS, "%s.resolve_dimensions" % cname)
+        if rdf is None:
+            raise AnalysisError("anchor vanished: %s.resolve_dimensions" % cname)
+        nel += 1
+        unguarded = [oc for guards, oc in case_paths(rdf, both) if oc and oc[0] == "return"
+                     and not any(g.replace(" ", "") in ("dim1!=dim2", "dim2!=dim1", "(dim1!=dim2)", "notdim1==dim2") for g, _ in guards)]
+        res.check("GUARDS", "%s accepts two arrays only when their shapes are equal" % cname, not unguarded, rdf.loc(unguarded[0][2]) if unguarded else rdf.loc(),
+                  rdf.qual, "return %s" % unguarded[0][1] if unguarded else "if dim1 != dim2: raise",
+                  "%s.resolve_dimensions can answer %s for two arrayed operands without having compared their shapes: an element-wise equation over "
+                  "arrays of different shapes is accepted and yields values for the shape of the left operand"
+                  % (cname, unguarded[0][1] if unguarded else ""), key="GUARDS/%s.resolve_dimensions/unchecked-shapes" % cname)
+    res.floor("element-wise resolve_dimensions siblings", nel, 4)
+
+    # ---- clones keep their class: x.arr_median() inside an arrayed equation is still a median in every per-index clone -----------------
+    from ..util import deref as _deref
+    ncl = 0
+    for cname, ci in idx.module(OPS).classes.items():
+        if "clone_with_index" not in ci.methods:
+            continue
+        cf = ci.methods["clone_with_index"][-1]
+        for r_ in [x for x in walk_no_nested(cf.node) if isinstance(x, ast.Return) and x.value is not None]:
+            v = _deref(cf.node, r_.value)
+            if not isinstance(v, ast.Call):
+                continue
+            built = call_name(v)
+            if built in ("type", "__class__") or isinstance(v.func, ast.Call):
+                continue               # type(self)(...) / self.__class__(...)
+            if built is None or built not in idx.module(OPS).classes:
+                continue
+            ncl += 1
+            res.check("AGG", "%s.clone_with_index builds a %s" % (cname, cname), built == cname, cf.loc(v), cf.qual, src(v)[:80],
+                      "%s.clone_with_index builds a %s: inside an arrayed equation every per-index clone computes %s instead of %s"
+                      % (cname, built, built, cname), key="AGG/%s.clone_with_index/class" % cname)
+    res.floor("clone_with_index constructions", ncl, 10)
+
+    # ---- shape queries are recomputed: an array grows after it was first used (m[i][n] = v, a new dot operand) ---------------------------
+    ae = idx.module(OPS).classes.get("ArrayedEquation")
+    if ae is None:
+        raise AnalysisError("anchor vanished: ArrayedEquation")
+    nq = 0
+    for mname in ("matrix_size", "vector_size"):
+        if mname not in ae.methods:
+            continue
+        qf = ae.methods[mname][-1]
+        nq += 1
+        st = [x for x in ast.walk(qf.node) if isinstance(x, ast.Attribute) and isinstance(x.ctx, ast.Store) and isinstance(x.value, ast.Name) and x.value.id == "self"]
+        res.check("GUARDS", "ArrayedEquation.%s computes the shape from the current members" % mname, not st, qf.loc(st[0]) if st else qf.loc(), qf.qual,
+                  src(st[0]) if st else "", "ArrayedEquation.%s stores %s: a shape remembered on the object outlives the shape - rows that gain a column "
+                  "(or a member assigned later) are not seen by dot products, element-wise operators and rank" % (mname, src(st[0]) if st else ""),
+                  key="GUARDS/ArrayedEquation.%s/cached-shape" % mname)
+    res.floor("shape queries of ArrayedEquation", nq, 2)
+
 
 def _axis_agreement(idx: Index, res: Result) -> int:
     """AXIS: in the expansion loops of an arrayed equation a variable that ranges over ``range(D[k])`` addresses axis k: it stands at
